@@ -18,7 +18,9 @@ class _:
     # owner: ghost, id of the thing it answers.  promise: ghost rank of what a success of this Deferred means to the
     # callbacks attached to it (a refinement of Deferred[T]); a callback declaring `expects=k` may only be attached where
     # promise >= k is proved
-    fields = {"called": "bool", "failed": "bool", "owner": ("int", False), "promise": ("int", False)}
+    # dl_members: ghost, the Deferreds a DeferredList was built from (empty for any other Deferred)
+    fields = {"called": "bool", "failed": "bool", "owner": ("int", False), "promise": ("int", False),
+              "dl_members": ("List[Ref_Deferred]", False)}
 
 
 @klass("twisted.DelayedCall")
@@ -385,7 +387,18 @@ def install(eng):
         return d
 
     def _DeferredList(e, args, kwargs, fr, node):
-        d = H.alloc(e, 'Deferred', {'called': V(BOOL, z3.FreshConst(z3.BoolSort(), 'dl_fired'))})
+        # fires once every member has fired (at once for an empty list): whether that is already the case is left open
+        # except for the empty list; the members are recorded (ghost dl_members)
+        init = {'called': V(BOOL, z3.FreshConst(z3.BoolSort(), 'dl_fired'))}
+        ms = args[0] if args else None
+        if isinstance(ms, V) and ms.ty == ('list', ('ref', 'Deferred')):
+            init['dl_members'] = ms
+            e.assume(z3.Implies(z3.Length(ms.t) == 0, init['called'].t))
+        elif isinstance(ms, V) and ms.ty[0] == 'list' and ms.ty[1] == ANY:
+            init['called'] = vbool(True)
+            lty = ('list', ('ref', 'Deferred'))
+            init['dl_members'] = V(lty, z3.Empty(T.sort_of(lty)))
+        d = H.alloc(e, 'Deferred', init)
         H.note_ref(e, d)
         return d
 
@@ -448,6 +461,14 @@ def install(eng):
         if d.ty[0] == 'opt':
             return vbool(z3.And(z3.Not(T.is_none(d)), H.heap_read(e, T.opt_val(d), 'running').t))
         return H.heap_read(e, d, 'running')
+
+    def b_dl_members(e, args, kwargs, fr, node):
+        d = args[0]
+        if d.ty[0] == 'opt':
+            d = T.opt_val(d)
+        return H.heap_read(e, d, 'dl_members')
+
+    eng.builtin_names['dl_members'] = PyObj('builtin', b_dl_members)
 
     def b_is_fresh(e, args, kwargs, fr, node):
         return vbool(args[0].t >= H.FRESH_BASE)
